@@ -15,7 +15,7 @@ from .. import tlc
 TRACE_MODULE = "codec/Trace_Serialize.tla"
 WIDE = ["PyInt", "PyFloat", "NpInt32", "NpInt64", "NpFloat32", "NpFloat64"]
 NARROW = ["NpInt8", "NpInt16", "NpUInt8", "NpUInt16", "NpUInt32", "NpUInt64", "NpFloat16"]
-DTYPES = ["int8", "int16", "int32", "int64", "uint8", "uint16", "uint32", "uint64", "float16", "float32", "float64"]
+DTYPES = ["int8", "int16", "int32", "int64", "uint8", "uint16", "uint32", "uint64", "float16", "float32", "float64", "bool"]
 WORDS = ["", "a", "ab", "snr", "q p", "x_1", "c{snr}", "{0}", "set{{A}}", "100%s", "}{", "Ab", "caf\u00e9 \u221a2"]
 
 
@@ -35,6 +35,8 @@ def rnd_scalar(rng):
     r = rng.rand()
     if r < 0.15:
         return {"t": "Str", "n": 0, "d": 1, "s": WORDS[rng.randint(len(WORDS))]}
+    if r < 0.22:
+        return {"t": ["PyBool", "NpBool"][rng.randint(2)], "n": int(rng.randint(2)), "d": 1, "s": ""}
     return rnd_num(rng, (WIDE + NARROW)[rng.randint(len(WIDE) + len(NARROW))])
 
 
@@ -43,7 +45,9 @@ def rnd_array(rng):
     nd = rng.randint(1, 4)
     shape = [int(rng.randint(0, 4)) for _ in range(nd)]
     size = int(np.prod(shape))
-    if dt.startswith("float"):
+    if dt == "bool":
+        data = [[int(rng.randint(2)), 1] for _ in range(size)]
+    elif dt.startswith("float"):
         data = []
         for _ in range(size):
             f = Fraction(int(rng.randint(-40, 41)), int(2 ** rng.randint(0, 4)))
@@ -118,7 +122,7 @@ def frac(x):
 def describe(o):
     """typed description of a real object (what the decoder returned)"""
     if isinstance(o, (bool, np.bool_)):
-        return {"t": "Bool", "n": int(o), "d": 1, "s": ""}
+        return {"t": "PyBool" if type(o) is bool else "NpBool", "n": int(o), "d": 1, "s": ""}
     if type(o) is int:
         return {"t": "PyInt", "n": o, "d": 1, "s": ""}
     if type(o) is float:
@@ -141,7 +145,7 @@ def describe(o):
     if isinstance(o, np.ndarray):
         flat = o.reshape(-1).tolist()
         return {"t": "Array", "dtype": str(o.dtype), "shape": [int(k) for k in o.shape],
-                "data": [[int(x), 1] if o.dtype.kind in "iu" else list(frac(x)) for x in flat]}
+                "data": [[int(x), 1] if o.dtype.kind in "iub" else list(frac(x)) for x in flat]}
     return {"t": "Other:" + type(o).__name__, "n": 0, "d": 1, "s": repr(o)[:40]}
 
 
@@ -174,7 +178,9 @@ def tree_of(p):
 def tags_of(v, out=None):
     out = set() if out is None else out
     t = v["t"]
-    if t == "NpFloat32":
+    if t == "NpBool":
+        out.add("npbool")
+    elif t == "NpFloat32":
         out.add("f32")
     elif t in NARROW:
         out.add("narrow")
@@ -303,7 +309,7 @@ def validate_chunk(events):
 
 
 # clause + tag of the recorded input -> finding it has the signature of
-SIGNATURE = [("EncodeTotal", "narrow", "NarrowScalarRaises"), ("Encode", "f32", "Float32EncodedAsInt"),
+SIGNATURE = [("EncodeTotal", "npbool", "NpBoolRaises"), ("EncodeTotal", "narrow", "NarrowScalarRaises"), ("Encode", "f32", "Float32EncodedAsInt"),
              ("Decode", "dtype", "ArrayDtypeLost"), ("Decode", "emptynd", "EmptyArrayShapeLost"),
              ("DecodeTotal", "ratio0", "RatioZeroUpdatesRaises"), ("RoundTripFaithful", "choiceacc", "ChoiceAccumOrderLost"),
              ("DoubleRoundTrip", "choiceacc", "ChoiceAccumOrderLost"), ("DoubleRoundTrip", "dtype", "ArrayDtypeLost")]
